@@ -7,9 +7,10 @@ from .. import listing as Lm
 ID = "C01"
 TECHNIQUE = ("property-based testing (Hypothesis, spec-first generated modules and edit sets) "
              "against an independent listing-edit reference model")
-RULE = ("a case is a generated listing (1-3 sections, code and data blocks, labels, functions, "
+RULE = ("a case is a generated listing (1-3 sections of one or several contiguous byte intervals, code and data blocks, labels, functions, "
         "symbolic operands; five ISA/format pairs) plus 1-5 (thorough 1-9) non-overlapping "
-        "insert/replace/delete requests on instruction boundaries in arbitrary registration order; "
+        "insert_at/replace_at/delete_at/register_insert (AllBlocksScope, SingleBlockScope) requests on instruction boundaries in "
+        "arbitrary registration order, patches of instructions and data directives; "
         "section bytes after RewritingContext.apply() must equal the bytes of the list-edited listing. "
         "Non-trivial = >=2 effective edits of which two touch the same or physically adjacent blocks, or a "
         "whole-block deletion next to another edit; distinct by spec hash.")
